@@ -181,6 +181,19 @@ def r2(ctx, F, rule, sfx):
     m = fc.args[2]
     ok = isinstance(m, I.St) and m.variant == 'Some' and 'vi.cell_is_active' in repr(I.frozen(m.fields[0]))
     ctx.check(rule, 'conversion:mask-is-activity-vector%s' % sfx, ok, repr(m)[:100], 'Some(&self.cell_is_active)', where(fc.body, fc.line), key_extra='maskarg')
+    # unselected slots: both routes store the same record (the all-zero cell; finalize then sets idx and the links)
+    dres = cd['result']
+    cres = runs[0]['result']
+
+    def skipped_arm(res):
+        out = []
+        for conds, leaf in cases(res):
+            if isinstance(leaf, I.St) and leaf.adt.endswith('VoronoiCell'):
+                out.append(leaf)
+        return out
+    da, ca = skipped_arm(dres), skipped_arm(cres)
+    ok = len(da) == 1 and len(ca) == 1 and I.vkey(da[0]) == I.vkey(ca[0])
+    ctx.check(rule, 'unselected-slot-record-agrees%s' % sfx, ok, 'direct %s | conversion %s' % (repr(da[0])[:90] if da else None, repr(ca[0])[:90] if ca else None), 'the same literal record on the not-constructed arm of both routes', where(fc.body, fc.line), key_extra='skipped-record')
     # direct: mask argument is the caller's (C07.R2) — and the activity vector is its copy / all-true (C07.R2)
     ctx.check(rule, 'direct:mask-is-callers%s' % sfx, repr(fd.fargs[2]) == 'mask', repr(fd.fargs[2])[:60], 'mask', where(fd.body, fd.line), key_extra='dmask')
 
